@@ -214,4 +214,5 @@ def _zb(x):
 
 
 def is_symbolic(x) -> _bool:
-    return isinstance(x, SymInt | SymBool | SymStr)
+    from .values import is_sym
+    return is_sym(x)
